@@ -103,3 +103,30 @@ func (a *Pointer[T]) Swap(new *T) *T {
 	a.p = new
 	return old
 }
+
+// Int64 is only used by the metrics counters of the instrumented packages; they never feed
+// back into protocol decisions, so its operations are not scheduling points.
+type Int64 struct {
+	mu sync.Mutex
+	v  int64
+}
+
+func (a *Int64) Load() int64 { a.mu.Lock(); defer a.mu.Unlock(); return a.v }
+func (a *Int64) Store(v int64) {
+	a.mu.Lock()
+	a.v = v
+	a.mu.Unlock()
+}
+func (a *Int64) Add(d int64) int64 {
+	a.mu.Lock()
+	defer a.mu.Unlock()
+	a.v += d
+	return a.v
+}
+func (a *Int64) Swap(n int64) int64 {
+	a.mu.Lock()
+	defer a.mu.Unlock()
+	old := a.v
+	a.v = n
+	return old
+}
